@@ -117,6 +117,11 @@ class TypeLengthString(object):
 class FruTypeLengthString(TypeLengthString):
 
     def __init__(self, data=None, offset=0, force_lang_eng=False):
+        # the type/length byte and the field's bytes lie inside the data
+        if data is not None and (
+                offset >= len(data)
+                or offset + 1 + (data[offset] & 0x3f) > len(data)):
+            raise DecodingError('field exceeds the data')
         super(FruTypeLengthString, self).__init__(data, offset,
                                                   force_lang_eng,
                                                   sdr=False)
